@@ -226,7 +226,17 @@ func renderYaml(c acCfg, dir string) string {
 			if cu.Steps < 0 {
 				b.WriteString("      min: 40\n      max: 80\n")
 			} else if cu.Steps == 0 {
-				b.WriteString("      steps: {}\n")
+				// an explicitly empty step list, in either spelling, alone or next to min/max
+				switch len(cu.ID+cu.Sensor) % 4 {
+				case 0:
+					b.WriteString("      steps: {}\n")
+				case 1:
+					b.WriteString("      steps: []\n")
+				case 2:
+					b.WriteString("      min: 40\n      max: 80\n      steps: {}\n")
+				default:
+					b.WriteString("      steps: []\n      min: 30\n      max: 70\n")
+				}
 			} else {
 				b.WriteString("      steps:\n")
 				for k := 0; k < cu.Steps; k++ {
